@@ -188,15 +188,35 @@ def run_instance(h, g, n, tag8, dep8, cfg, eid):
         if decoy:
             # the sentence is the second one of a call: another sentence (same grammar, same options) is parsed before it in
             # the same call.  The pops of the first sentence are counted on a call of its own (searches are deterministic).
-            dn, dtag8, ddep8 = decoy
+            dn, dtag8, ddep8 = decoy[:3]
+            nlong_before, nlong_after = (decoy[3], decoy[4]) if len(decoy) > 3 else (0, 0)
             dtoks = [Token.of_word('d%d' % i) for i in range(dn)]
             dsc = lambda: ScoringResult(np.array(dtag8, dtype=np.float32) / 8, np.array(ddep8, dtype=np.float32) / 8)
+            # sentences longer than max_length (skipped by the parser: their own placeholder, no search) around the two
+            kw['max_length'] = 6
+            ltoks = lambda j: [Token.of_word('long%d_%d' % (j, i)) for i in range(7)]
+            lsc = lambda: ScoringResult(np.zeros((7, K), dtype=np.float32), np.zeros((7, 8), dtype=np.float32))
             h.rt.pops_clear()
             h.parsing.run([dtoks], [dsc()], list(lex), list(g['roots']), g['bin'], g['un'], **kw)
             n_d = len(h.rt.pops())
             h.rt.pops_clear()
-            res = h.parsing.run([dtoks, toks], [dsc(), ScoringResult(tag.copy(), dep.copy())], list(lex), list(g['roots']), g['bin'], g['un'], **kw)[1]
+            nlong_mid = (nlong_before + nlong_after) % 2            # one between the two sentences in half of the cases
+            docs = [ltoks(j) for j in range(nlong_before)] + [dtoks] + [ltoks(5) for _ in range(nlong_mid)] + [toks] + [ltoks(9) for _ in range(nlong_after)]
+            scs = ([lsc() for _ in range(nlong_before)] + [dsc()] + [lsc() for _ in range(nlong_mid)] + [ScoringResult(tag.copy(), dep.copy())]
+                   + [lsc() for _ in range(nlong_after)])
+            allres = h.parsing.run(docs, scs, list(lex), list(g['roots']), g['bin'], g['un'], **kw)
+            res = allres[nlong_before + 1 + nlong_mid] if len(allres) == len(docs) else []
             pops = h.rt.pops()[n_d:]
+            # a sentence over max_length must get the placeholder; if one got anything else, that result is what is sent to
+            # the trace specification (as the result for the 7 words of that sentence)
+            for j, (dtk, r) in enumerate(zip(docs, allres)):
+                if len(dtk) == 7 and not (len(r) == 1 and r[0].score == -float('inf') and r[0].tree.is_leaf):
+                    toks, n, res, pops = dtk, 7, r, []
+                    tag8 = [[0] + [-32768] * (K - 1) for _ in range(7)]
+                    dep8 = [[0] * 8 for _ in range(7)]
+                    cfg = dict(cfg, k=1)
+                    decoy = ('a sentence longer than max_length=6 at position %d of the call' % j,)
+                    break
         else:
             h.rt.pops_clear()
             res = h.parsing.run([toks], [ScoringResult(tag.copy(), dep.copy())], list(lex), list(g['roots']), g['bin'], g['un'], **kw)[0]
@@ -285,10 +305,12 @@ def make_specs(prop, tier, rng):
                 elif mode == 2:
                     keep = rng.randrange(len(tag8[i]))
                     tag8[i] = [(v if j == keep or rng.random() < 0.3 else -32768) for j, v in enumerate(tag8[i])]
+                    if rng.random() < 0.25:
+                        tag8[i] = [-32768] * len(tag8[i])      # a row the category dictionary flattened entirely
         if rng.random() < 0.25:
             dn = rng.choice([1, 2, 3])
             dt, dd = make_scores(rng, dn, len(g['lex']), 'small')
-            cfg = dict(cfg, decoy=(dn, dt, dd))
+            cfg = dict(cfg, decoy=(dn, dt, dd, rng.choice([0, 0, 1, 2]), rng.choice([0, 1])))
         specs.append((g, n, tag8, dep8, cfg))
     return specs
 
